@@ -996,6 +996,70 @@ func Run(r *ev.Run) {
 		}
 	}
 
+	// ---- a backend record that Write REFUSES (a handshake record that cannot be a ServerHello: cut short, a session id length
+	// beyond the body, an extensions length beyond the body, a declared length of zero; an over-long record) is not handed on -
+	// and nothing the backend writes afterwards is: the client must never receive a stream with a hole in it ----
+	{
+		var acc *scenario
+		for i := range scs {
+			if scs[i].name == "accepted" {
+				acc = &scs[i]
+			}
+		}
+		ch1 := acc.steps[0].data[:acc.steps[0].rewritten[0][1]]
+		good := echx.ServerHelloRecord(tlsref.DetBytes("sid", 32))
+		msg := good[5:]
+		mut := func(f func(m []byte) []byte) []byte { return tlsref.Record(22, 0x0303, f(slices.Clone(msg))) }
+		bads := map[string][]byte{
+			"cut-short":                    mut(func(m []byte) []byte { return m[:40] }),
+			"session-id-length-beyond":     mut(func(m []byte) []byte { m[4+2+32] = 0xff; return m }),
+			"extensions-length-beyond":     mut(func(m []byte) []byte { m[len(m)-len(m[4+2+32+1+32+3:])] = 0xff; return m }),
+			"declared-length-beyond":       mut(func(m []byte) []byte { m[1], m[2], m[3] = 0, 0xff, 0xff; return m[:60] }),
+			"record-longer-than-permitted": append([]byte{22, 3, 3, 0x50, 0x00}, make([]byte, 0x5000)...),
+		}
+		var names []string
+		for k := range bads {
+			names = append(names, k)
+		}
+		sort.Strings(names)
+		later := [][]byte{rec(23, 30, "later-appdata"), good, rec(22, 20, "later-handshake")}
+		for _, name := range names {
+			for li, lt := range later {
+				t := memnet.New()
+				t.Feed(ch1)
+				conn, err := ech.NewConn(ctxBG, t, ech.WithKeys(acc.keys))
+				if err != nil || !conn.ECHAccepted() {
+					ev.ToolError("c07: accepted hello refused: %v", err)
+				}
+				var e1, e2 error
+				func() {
+					defer func() {
+						if p := recover(); p != nil {
+							r.Violation("panic:refused-backend-record", fmt.Sprintf("%s: %v", name, p), name)
+							e1 = fmt.Errorf("panic")
+						}
+					}()
+					_, e1 = conn.Write(bads[name])
+					_, e2 = conn.Write(lt)
+				}()
+				got := t.OutBytes()
+				all := cat(bads[name], lt)
+				oc := "refused for good"
+				switch {
+				case e1 == nil && bytes.Equal(got, all):
+					oc = "handed on unchanged" // (not a ServerHello the Conn has to understand: transparency is fine too)
+				case !bytes.HasPrefix(all, got):
+					oc = "hole"
+					r.Violation("backend-stream-with-a-hole", fmt.Sprintf("the backend's record %q was refused by Write (%v); the next Write returned %v and the client has received %d bytes that are not a prefix of what the backend wrote: the refused bytes are missing in between", name, e1, e2, len(got)), map[string]any{"refused": name, "then": li})
+				case e1 != nil && e2 == nil:
+					oc = "error forgotten"
+					r.Violation("write-error-not-sticky", fmt.Sprintf("the backend's record %q was refused by Write (%v); the next Write reported success", name, e1), map[string]any{"refused": name, "then": li})
+				}
+				r.Eval(fmt.Sprintf("refused-backend-record:%s:%d", name, li), "refused backend record -> "+oc)
+			}
+		}
+	}
+
 	// ---- a read that fails TEMPORARILY in the middle of a record while the client's stream is still interpreted (between the
 	// HelloRetryRequest and the second hello): whatever the Conn does afterwards - stay failed, or carry on - the bytes it
 	// delivers are a prefix of what the client sent (with the second hello replaced): the record framing is never lost ----
